@@ -27,7 +27,8 @@
                          → `refines` / `run_refines` (simulation by `AMap`), `credits_iff_abs`.
   * "traffic sent afterwards follows the current knowledge"
                          → `traffic_follows`, `traffic_follows_history`,
-                           `node_iam_learns`, `node_routed_learns`.
+                           `node_iam_learns`, `node_routed_learns`, `node_forget_forgets`,
+                           `node_nni_renumbers`, `release_to_announcer`.
   * no operation fails from a coherent state, except the documented refusal of
     `delete_router_info(snet)` without router and destinations → `no_failure`.
 -/
@@ -389,6 +390,69 @@ theorem node_routed_learns (n : Node α) (port : Nat) (src : α) (snet : Nat)
   funext s' d'
   simp [absOf, AMap.learn, learnMap, hP]
 
+/-- an accepted `delete_router_references` is exactly `forget` on the abstract map -/
+theorem node_forget_forgets (n : Node α) (snet : Net) (a : Option α) (ds : Option (List Nat))
+    (hc : Coherent n.cache) (hs : has snet n.adapters = true) (hne : ¬ (a = none ∧ ds = none)) :
+    absOf (nodeStep n (.forget snet a ds)).1.cache = (absOf n.cache).forget snet a ds := by
+  obtain ⟨c', e, _, hP⟩ := delete_spec n.cache snet a ds hc hne
+  simp only [nodeStep, hs, Bool.not_true, Bool.false_eq_true, ↓reduceIte, e]
+  funext s' d'
+  simp only [absOf, AMap.forget, hP]
+  rfl
+
+/-- a broadcast Network-Number-Is that changes the number of an adapter (unknown so
+    far, or learned and different) is exactly `renumber` on the abstract map — whatever
+    then happens to the adapter table -/
+theorem node_nni_renumbers (n : Node α) (port net flag : Nat) (p : Port)
+    (hc : Coherent n.cache) (hp : n.ports[port]? = some p) (hdiff : p.net ≠ some net)
+    (hcfg : p.net = none ∨ p.cfg ≠ some 1) :
+    absOf (nodeStep n (.nni port net flag true)).1.cache =
+      (absOf n.cache).renumber p.net (some net) := by
+  obtain ⟨c', e, _, hP⟩ := renumber_spec n.cache p.net (some net) hc
+  have habs : absOf c' = (absOf n.cache).renumber p.net (some net) := by
+    funext s' d'; simp only [absOf, AMap.renumber, hP]; rfl
+  simp only [nodeStep, Bool.not_true, Bool.false_eq_true, ↓reduceIte, hp]
+  cases hn : p.net with
+  | none =>
+    rw [hn] at e
+    simp only [e]
+    split <;> exact (hn ▸ habs)
+  | some cur =>
+    rw [hn] at e hdiff
+    have h1 : ¬ cur = net := fun h => hdiff (by rw [h])
+    have h2 : ¬ p.cfg = some 1 := by
+      rcases hcfg with h | h
+      · rw [hn] at h; cases h
+      · exact h
+    simp only [h1, ↓reduceIte, h2, e]
+    split <;> exact (hn ▸ habs)
+
+omit [DecidableEq α] in
+/-- packets that waited for a path are released to the station that announced it, on
+    the adapter the announcement arrived on, and to nobody else -/
+theorem release_to_announcer (port : Nat) (src : α) (nets : List Nat) :
+    ∀ (pend : List (Nat × Nat)) (acc : List (Frame α)) (f : Frame α),
+      f ∈ (release port src nets pend acc).2 →
+        f ∈ acc ∨ ∃ d ∈ nets, f = Frame.apdu port (Dest.station src) (some d) := by
+  induction nets with
+  | nil => intro pend acc f h; exact Or.inl h
+  | cons d ds ih =>
+    intro pend acc f h
+    unfold release at h
+    cases hg : aget d pend with
+    | none =>
+      simp only [hg] at h
+      rcases ih pend acc f h with h1 | ⟨d', hd', h2⟩
+      · exact Or.inl h1
+      · exact Or.inr ⟨d', List.mem_cons_of_mem _ hd', h2⟩
+    | some k =>
+      simp only [hg] at h
+      rcases ih _ _ f h with h1 | ⟨d', hd', h2⟩
+      · rcases List.mem_append.mp h1 with h3 | h3
+        · exact Or.inl h3
+        · exact Or.inr ⟨d, List.mem_cons_self, (List.mem_replicate.mp h3).2⟩
+      · exact Or.inr ⟨d', List.mem_cons_of_mem _ hd', h2⟩
+
 /-- the next hop the abstract map prescribes: the first adapter (in the order of
     the adapter table) whose network has an entry for the destination -/
 def nextHopAbs (m : AMap α) (d : Nat) : List (Net × Nat) → Option (Nat × α)
@@ -503,5 +567,9 @@ example : portNet sampleNode sampleNode.localPort ≠ some 10 ∧ has 10 sampleN
 /-- hypotheses of `node_iam_learns` / `node_routed_learns` -/
 example : (nodeStep sampleNode (.iam 0 3 [12, 13])).2.raised = none := by decide +kernel
 example : has (some 13) sampleNode.adapters = false := by decide +kernel
+/-- hypotheses of `node_forget_forgets` / `node_nni_renumbers` (adapter 0: learned network 5, told 6) -/
+example : has (some 6) sampleNode.adapters = true := by decide +kernel
+example : sampleNode.ports[0]? = some ⟨some 5, some 0⟩ ∧ (some 5 : Net) ≠ some 6 ∧
+    (some 0 : Option Nat) ≠ some 1 := by decide +kernel
 
 end BacVerif.C19
